@@ -175,12 +175,14 @@ def search(ctx):
             import traceback
             ctx.violation("C03:raises:%s" % type(ex).__name__, "cross-section check raised %r" % (ex,), dict(kind="raises", tb=traceback.format_exc()[-800:]))
     # one-sphere clusters at larger size parameters (the multi-sphere solver's solid-angle quadrature and expansion order grow with x)
-    for xl in (12.0, 22.0, 27.0):
+    # ... and at ROUND values of radius and wavelength, where the size parameter is a multiple of pi (r = 0.5, 1.0, 1.5 at
+    # wavelength 1 in vacuum) or the interior argument m x is (n = 1.5, r = 1/3): sin(x) = 0 is where a Riccati-Bessel psi_0 vanishes
+    for xl, nm, wl, nsph in ((12.0, 1.33, 0.66, 1.59), (22.0, 1.33, 0.66, 1.59), (27.0, 1.33, 0.66, 1.59), (math.pi, 1.0, 1.0, 1.5), (2 * math.pi, 1.0, 1.0, 1.5),
+                             (3 * math.pi, 1.0, 1.0, 1.5), (2 * math.pi / 3, 1.0, 1.0, 1.5), (4 * math.pi, 1.0, 1.0, 1.33)):
         try:
-            nm, wl = 1.33, 0.66
             kw = 2 * math.pi / (wl / nm)
             pol = T.rand_pol(rng)
-            s1 = Sphere(n=1.59, r=xl / kw, center=(0, 0, 0))
+            s1 = Sphere(n=nsph, r=(xl / kw if nm != 1.0 else round(xl / kw, 12)), center=(0, 0, 0))
             ctx.tried("one-sphere-cluster-large", (xl,))
             cs = calc_cross_sections(s1, medium_index=nm, illum_wavelen=wl, illum_polarization=pol, theory=Mie()).values
             cm = calc_cross_sections(Spheres([s1]), medium_index=nm, illum_wavelen=wl, illum_polarization=pol,
